@@ -61,6 +61,9 @@ func gen(t *rapid.T) Case {
 	for i := 0; i < n; i++ {
 		var m MsgSpec
 		nd := 1 + stats.Pick(t, 3, "ndata")
+		if i > 0 && stats.Pct(t, "nodata") >= 90 {
+			nd = 0 // a message without data lines still carries an ID: the client sees an event with empty data
+		}
 		for j := 0; j < nd; j++ {
 			m.Data = append(m.Data, stats.B(stats.From(t, dataPool, "data")))
 		}
